@@ -3,6 +3,7 @@ package c10
 import (
 	"context"
 	"fmt"
+	"reflect"
 	"strings"
 	"testing"
 
@@ -31,15 +32,34 @@ func TestC10NamedTypes(t *testing.T) {
 			p, classes := c.Build(tag)
 			f := filters[rapid.IntRange(0, 1).Draw(t, fmt.Sprintf("filter%d", i))]
 			// the filter node has a life between events: Reopen calls, and an event that is rejected (a bare string payload)
-			switch rapid.IntRange(0, 5).Draw(t, fmt.Sprintf("between%d", i)) {
+			switch rapid.IntRange(0, 6).Draw(t, fmt.Sprintf("between%d", i)) {
 			case 0:
 				_ = f.Reopen()
 			case 1:
 				_, _ = f.Process(context.Background(), &eventlogger.Event{Type: "t", Payload: "a bare string payload is rejected"})
+			case 2:
+				// a filter shared by several pipelines is handed the very same event once per pipeline; here an event it
+				// rejects, twice: whatever it forwards for it has the input's dynamic type
+				bare := &eventlogger.Event{Type: "t", Payload: "a bare string payload is rejected"}
+				for k := 0; k < 2; k++ {
+					if o, _ := f.Process(context.Background(), bare); o != nil {
+						if _, isStr := o.Payload.(string); !isStr {
+							t.Fatalf("VIOLATION C10: for an event whose payload is a string the filter forwarded an event with a payload of type %T (call %d with the same event)\ncase: order=%v", o.Payload, k+1, order)
+						}
+					}
+				}
 			}
-			out, err := f.Process(context.Background(), &eventlogger.Event{Type: "t", Payload: p})
+			in := &eventlogger.Event{Type: "t", Payload: p}
+			out, err := f.Process(context.Background(), in)
+			if err == nil && out != nil && rapid.IntRange(0, 2).Draw(t, fmt.Sprintf("sameEventAgain%d", i)) == 0 {
+				// the same event pointer once more (the next pipeline of a fan-out): judged like the first call
+				out, err = f.Process(context.Background(), in)
+			}
 			if err != nil || out == nil {
 				t.Fatalf("VIOLATION C10: Process failed on a well-formed payload of %s: %v\ncase: order=%v", c.Name, err, order)
+			}
+			if reflect.TypeOf(out.Payload) != reflect.TypeOf(p) {
+				t.Fatalf("VIOLATION C10: the forwarded payload has type %T, the input %T (step %d)\ncase: order=%v", out.Payload, p, i, order)
 			}
 			got := c.Get(out.Payload)
 			for field, class := range classes {
